@@ -8,7 +8,7 @@ words in exactly that order; a search then is "the first start position, and for
 matches", which is a quantifier-free term over the code points of the text.
 """
 import z3
-from .sym import Inconclusive, concrete, BV
+from .sym import Inconclusive, InfiniteLanguage, concrete, BV
 from .smt import in_ranges
 
 
@@ -91,7 +91,7 @@ def parse_ast(parser):
             P.i += 1
             return ('opt', a)
         if P.at('*') or P.at('+'):
-            raise Inconclusive('unbounded quantifier in the printed pattern')
+            raise InfiniteLanguage('unbounded quantifier in the printed pattern')
         if P.at('{'):
             j = P.i + 1
             txt = ''
